@@ -37,6 +37,7 @@ var (
 )
 
 var errInjected = errors.New("injected storage failure")
+var errPanic = errors.New("panic in the code under test")
 
 // oneStorage hands the same IAppStorage to every provider instance ("restart on the same storage")
 type oneStorage struct{ st istorage.IAppStorage }
@@ -167,13 +168,15 @@ func be64(x uint64) []byte { b := make([]byte, 8); binary.BigEndian.PutUint64(b,
 
 // error classes of a start / rename, decided on the message text (the error values live in
 // internal packages): 0 ok, 1 injected storage failure, 2 ID limit, 3 bad stored row (ID in the
-// system range), 4 unknown view version, 5 rename refused, 9 anything else
+// system range), 4 unknown view version, 5 rename refused, 9 anything else, 99 the code under test panicked
 func errClass(err error) int {
 	if err == nil {
 		return 0
 	}
 	s := err.Error()
 	switch {
+	case errors.Is(err, errPanic):
+		return 99
 	case errors.Is(err, errInjected):
 		return 1
 	case strings.Contains(s, "has been exceeded"):
